@@ -669,4 +669,414 @@ theorem wf_init (prims : List (Name × TyId)) (others : List Name) : WF (St.init
         simp at hk
     · simp [hs] at h
 
+/-! ## reachability: what the passes leave in the table -/
+
+theorem convTy_ext {st st' : St} (h : Ext st st') : ∀ (t : RustTy) (t' : RotoTy),
+    convTy st t = .ok t' → convTy st' t = .ok t' := by
+  intro t
+  induction t with
+  | unit => intro t' ht; simpa [convTy] using ht
+  | reg id =>
+    intro t' ht
+    simp only [convTy] at ht ⊢
+    cases hi : st.types id with
+    | none => simp [hi] at ht
+    | some nm => simp [hi] at ht; simp [h.types _ _ hi, ht]
+  | option t ih =>
+    intro t' ht
+    simp only [convTy, bind, Res.bind] at ht ⊢
+    cases hc : convTy st t with
+    | ok a => simp [hc, pure] at ht; simp [ih a hc, pure, ht]
+    | err e => simp [hc] at ht
+    | panic s => simp [hc] at ht
+  | list t ih =>
+    intro t' ht
+    simp only [convTy, bind, Res.bind] at ht ⊢
+    cases hc : convTy st t with
+    | ok a => simp [hc, pure] at ht; simp [ih a hc, pure, ht]
+    | err e => simp [hc] at ht
+    | panic s => simp [hc] at ht
+  | verdict a r iha ihr =>
+    intro t' ht
+    simp only [convTy, bind, Res.bind] at ht ⊢
+    cases ha : convTy st a with
+    | ok a' =>
+      cases hr : convTy st r with
+      | ok r' => simp [ha, hr, pure] at ht; simp [iha a' ha, ihr r' hr, pure, ht]
+      | err e => simp [ha, hr] at ht
+      | panic s => simp [ha, hr] at ht
+    | err e => simp [ha] at ht
+    | panic s => simp [ha] at ht
+  | result a r iha ihr =>
+    intro t' ht
+    simp only [convTy, bind, Res.bind] at ht ⊢
+    cases ha : convTy st a with
+    | ok a' =>
+      cases hr : convTy st r with
+      | ok r' => simp [ha, hr, pure] at ht; simp [iha a' ha, ihr r' hr, pure, ht]
+      | err e => simp [ha, hr] at ht
+      | panic s => simp [ha, hr] at ht
+    | err e => simp [ha] at ht
+    | panic s => simp [ha] at ht
+
+theorem convTys_ext {st st' : St} (h : Ext st st') : ∀ (ts : List RustTy) (ts' : List RotoTy),
+    convTys st ts = .ok ts' → convTys st' ts = .ok ts'
+  | [], ts', ht => by simpa [convTys] using ht
+  | t :: ts, ts', ht => by
+    simp only [convTys, bind, Res.bind] at ht ⊢
+    cases hc : convTy st t with
+    | ok a =>
+      cases hcs : convTys st ts with
+      | ok b => simp [hc, hcs, pure] at ht; simp [convTy_ext h t a hc, convTys_ext h ts b hcs, pure, ht]
+      | err e => simp [hc, hcs] at ht
+      | panic s => simp [hc, hcs] at ht
+    | err e => simp [hc] at ht
+    | panic s => simp [hc] at ht
+
+/-- the declaration an item leaves behind: its name is bound, in the scope the
+    item sits in, to a declaration with the item's own (converted) signature
+    and identity -/
+def QDecl : St → ScopeId → Item → Prop
+  | st, scope, .type n id =>
+    st.types id = some ⟨scope, n⟩ ∧ ∃ d s, st.decls ⟨scope, n⟩ = some d ∧ d.scope = some s
+  | st, scope, .function n ps r tag =>
+    ∃ ps' r', convTys st ps = .ok ps' ∧ convTy st r = .ok r' ∧
+      st.decls ⟨scope, n⟩ = some ⟨.function ps' r' tag, none⟩
+  | st, scope, .constant n ty tag =>
+    ∃ ty', convTy st ty = .ok ty' ∧ st.decls ⟨scope, n⟩ = some ⟨.const ty' tag, none⟩
+  | _, _, _ => True
+
+/-- the part of `QDecl` that pass `p` establishes -/
+def QPass (p : Pass) : St → ScopeId → Item → Prop
+  | st, scope, .type n id => p = .types → QDecl st scope (.type n id)
+  | st, scope, .function n ps r tag => p = .functions → QDecl st scope (.function n ps r tag)
+  | st, scope, .constant n ty tag => p = .constants → QDecl st scope (.constant n ty tag)
+  | _, _, _ => True
+
+theorem mono_QDecl : Mono QDecl := by
+  intro st st' scope i h hq
+  cases i with
+  | type n id =>
+    obtain ⟨h1, d, s, h2, h3⟩ := hq
+    exact ⟨h.types _ _ h1, d, s, h.decls _ _ h2, h3⟩
+  | function n ps r tag =>
+    obtain ⟨ps', r', h1, h2, h3⟩ := hq
+    exact ⟨ps', r', convTys_ext h _ _ h1, convTy_ext h _ _ h2, h.decls _ _ h3⟩
+  | constant n ty tag =>
+    obtain ⟨ty', h1, h2⟩ := hq
+    exact ⟨ty', convTy_ext h _ _ h1, h.decls _ _ h2⟩
+  | module n ch => trivial
+  | impl ty ch => trivial
+  | use ps => trivial
+
+theorem mono_QPass (p : Pass) : Mono (QPass p) := by
+  intro st st' scope i h hq
+  cases i with
+  | type n id => exact fun hp => mono_QDecl _ _ _ _ h (hq hp)
+  | function n ps r tag => exact fun hp => mono_QDecl _ _ _ _ h (hq hp)
+  | constant n ty tag => exact fun hp => mono_QDecl _ _ _ _ h (hq hp)
+  | module n ch => trivial
+  | impl ty ch => trivial
+  | use ps => trivial
+
+theorem good1_and {st : St} {r : Res St} {P : St → Prop} (g : Good st r)
+    (hp : ∀ st', r = .ok st' → P st') : Good1 st P r := by
+  cases r with
+  | ok st' => exact ⟨g.1, g.2, hp st' rfl⟩
+  | err e => trivial
+  | panic s => exact g
+
+theorem good1_weaken {st : St} {r : Res St} {P P' : St → Prop} (g : Good1 st P r)
+    (hp : ∀ st', P st' → P' st') : Good1 st P' r := by
+  cases r with
+  | ok st' => exact ⟨g.1, g.2.1, hp st' g.2.2⟩
+  | err e => trivial
+  | panic s => exact g
+
+theorem declareType_post {st st' : St} (hw : WF st) {scope : ScopeId} {n : Name} {id : TyId}
+    (h : declareType Cfg.fixed scope n id st = .ok st') : QDecl st' scope (.type n id) := by
+  unfold declareType at h
+  cases ht : st.types id with
+  | some nm => simp [ht] at h
+  | none =>
+    simp only [ht, Cfg.fixed, Bool.not_false, Bool.true_and, Bool.false_eq_true, if_false] at h
+    by_cases hn : st.typeNames ⟨scope, n⟩ = true
+    · simp [hn] at h
+    · simp only [hn] at h
+      cases hd : st.decls ⟨scope, n⟩ with
+      | none =>
+        simp [hd] at h; subst h
+        exact ⟨by simp [St.insertType], ⟨.type id, some (scope ++ [n])⟩, scope ++ [n],
+          by simp [St.insertType, St.insertDecl], rfl⟩
+      | some d =>
+        by_cases hp : d.kind = .prim
+        · simp [hd, hp] at h; subst h
+          obtain ⟨s, hs⟩ := hw.prims _ d hd hp
+          exact ⟨by simp [St.insertType], d, s, by simp [St.insertType, hd], hs⟩
+        · simp [hd, hp] at h
+
+theorem convTys_insertDecl (st : St) (k : RName) (d : Decl) (ts : List RustTy) :
+    convTys (st.insertDecl k d) ts = convTys st ts := by
+  have hty : ∀ t, convTy (st.insertDecl k d) t = convTy st t := by
+    intro t
+    induction t with
+    | unit => rfl
+    | reg id => rfl
+    | option t ih => simp only [convTy, ih]
+    | list t ih => simp only [convTy, ih]
+    | verdict a r iha ihr => simp only [convTy, iha, ihr]
+    | result a r iha ihr => simp only [convTy, iha, ihr]
+  induction ts with
+  | nil => rfl
+  | cons t ts ih => simp only [convTys, hty, ih]
+
+theorem convTy_insertDecl (st : St) (k : RName) (d : Decl) (t : RustTy) :
+    convTy (st.insertDecl k d) t = convTy st t := by
+  induction t with
+  | unit => rfl
+  | reg id => rfl
+  | option t ih => simp only [convTy, ih]
+  | list t ih => simp only [convTy, ih]
+  | verdict a r iha ihr => simp only [convTy, iha, ihr]
+  | result a r iha ihr => simp only [convTy, iha, ihr]
+
+theorem declareFunction_post {st st' : St} (lex : Name → Lex) {scope : ScopeId} {n : Name}
+    {ps : List RustTy} {r : RustTy} {tag : Nat}
+    (h : declareFunction Cfg.fixed lex scope n ps r tag false st = .ok st') :
+    QDecl st' scope (.function n ps r tag) := by
+  unfold declareFunction at h
+  split at h
+  · cases h
+  · cases hps : convTys st ps with
+    | panic s => simp [hps] at h
+    | err e => simp [hps] at h
+    | ok ps' =>
+      cases hr : convTy st r with
+      | panic s => simp [hps, hr] at h
+      | err e => simp [hps, hr] at h
+      | ok r' =>
+        cases hd : st.decls ⟨scope, n⟩ with
+        | some d => simp [hps, hr, hd] at h
+        | none =>
+          simp [hps, hr, hd] at h; subst h
+          exact ⟨ps', r', by rw [convTys_insertDecl]; exact hps, by rw [convTy_insertDecl]; exact hr,
+            by simp [St.insertDecl]⟩
+
+theorem declareConstant_post {st st' : St} {scope : ScopeId} {n : Name} {ty : RustTy} {tag : Nat}
+    (h : declareConstant scope n ty tag st = .ok st') : QDecl st' scope (.constant n ty tag) := by
+  unfold declareConstant at h
+  cases hr : convTy st ty with
+  | panic s => simp [hr] at h
+  | err e => simp [hr] at h
+  | ok r' =>
+    cases hd : st.decls ⟨scope, n⟩ with
+    | some d => simp [hr, hd] at h
+    | none =>
+      simp [hr, hd] at h; subst h
+      exact ⟨r', by rw [convTy_insertDecl]; exact hr, by simp [St.insertDecl]⟩
+
+section
+variable (lex : Name → Lex)
+
+theorem leaf_types_post (scope : ScopeId) (i : Item) (st : St) (hw : WF st) (_ : QTrue st scope i) :
+    Good1 st (fun st' => QPass .types st' scope i) (passLeaf Cfg.fixed lex .types scope i st) := by
+  cases i with
+  | type n id =>
+    simp only [passLeaf]
+    exact good1_and (declareType_good hw scope n id) (fun st' h _ => declareType_post hw h)
+  | function n ps r tag => simp [passLeaf, Good1, QPass, Ext.refl, hw]
+  | constant n ty tag => simp [passLeaf, Good1, QPass, Ext.refl, hw]
+  | module n ch => simp [passLeaf, Good1, QPass, Ext.refl, hw]
+  | impl ty ch => simp [passLeaf, Good1, QPass, Ext.refl, hw]
+  | use ps => simp [passLeaf, Good1, QPass, Ext.refl, hw]
+
+theorem leaf_functions_post (scope : ScopeId) (i : Item) (st : St) (hw : WF st) (hq : QTrue st scope i) :
+    Good1 st (fun st' => QFlat st' scope i ∧ QPass .functions st' scope i)
+      (passLeaf Cfg.fixed lex .functions scope i st) := by
+  have h0 := leaf_functions lex scope i st hw hq
+  cases i with
+  | function n ps r tag =>
+    simp only [passLeaf] at h0 ⊢
+    exact good1_and (declareFunction_good hw lex scope n ps r tag false)
+      (fun st' h => ⟨by simp [QFlat], fun _ => declareFunction_post lex h⟩)
+  | type n id => exact good1_weaken h0 (fun st' h => ⟨h, by simp [QPass]⟩)
+  | constant n ty tag => exact good1_weaken h0 (fun st' h => ⟨h, by simp [QPass]⟩)
+  | module n ch => exact good1_weaken h0 (fun st' h => ⟨h, by simp [QPass]⟩)
+  | impl ty ch => exact good1_weaken h0 (fun st' h => ⟨h, by simp [QPass]⟩)
+  | use ps => exact good1_weaken h0 (fun st' h => ⟨h, by simp [QPass]⟩)
+
+theorem leaf_constants_post (scope : ScopeId) (i : Item) (st : St) (hw : WF st)
+    (hq : QFlat st scope i ∧ QPass .functions st scope i) :
+    Good1 st (fun st' => QPass .constants st' scope i) (passLeaf Cfg.fixed lex .constants scope i st) := by
+  have h0 := leaf_constants lex scope i st hw hq.1
+  cases i with
+  | constant n ty tag =>
+    simp only [passLeaf] at h0 ⊢
+    exact good1_and (declareConstant_good hw scope n ty tag) (fun st' h _ => declareConstant_post h)
+  | type n id => exact good1_weaken h0 (fun st' _ => by simp [QPass])
+  | function n ps r tag => exact good1_weaken h0 (fun st' _ => by simp [QPass])
+  | module n ch => exact good1_weaken h0 (fun st' _ => by simp [QPass])
+  | impl ty ch => exact good1_weaken h0 (fun st' _ => by simp [QPass])
+  | use ps => exact good1_weaken h0 (fun st' _ => by simp [QPass])
+
+end
+
+mutual
+theorem Holds.and {Q1 Q2 : St → ScopeId → Item → Prop} {st : St} :
+    ∀ (scope : ScopeId) (is : Items), Holds Q1 st scope is → Holds Q2 st scope is →
+      Holds (fun st s i => Q1 st s i ∧ Q2 st s i) st scope is
+  | _, .nil, _, _ => by simp [Holds]
+  | scope, .cons i is, h1, h2 => by
+    simp only [Holds] at h1 h2 ⊢
+    exact ⟨HoldsItem.and scope i h1.1 h2.1, Holds.and scope is h1.2 h2.2⟩
+theorem HoldsItem.and {Q1 Q2 : St → ScopeId → Item → Prop} {st : St} :
+    ∀ (scope : ScopeId) (i : Item), HoldsItem Q1 st scope i → HoldsItem Q2 st scope i →
+      HoldsItem (fun st s i => Q1 st s i ∧ Q2 st s i) st scope i
+  | scope, .module n ch, h1, h2 => by
+    simp only [HoldsItem] at h1 h2 ⊢
+    obtain ⟨s1, hs1, hc1⟩ := h1
+    obtain ⟨s2, hs2, hc2⟩ := h2
+    have : s1 = s2 := by rw [hs1] at hs2; exact Option.some.inj hs2
+    subst this
+    exact ⟨s1, hs1, Holds.and s1 ch hc1 hc2⟩
+  | scope, .type n id, h1, h2 => by simp only [HoldsItem] at h1 h2 ⊢; exact ⟨h1, h2⟩
+  | scope, .function n ps r tag, h1, h2 => by simp only [HoldsItem] at h1 h2 ⊢; exact ⟨h1, h2⟩
+  | scope, .constant n ty tag, h1, h2 => by simp only [HoldsItem] at h1 h2 ⊢; exact ⟨h1, h2⟩
+  | scope, .impl ty ch, h1, h2 => by simp only [HoldsItem] at h1 h2 ⊢; exact ⟨h1, h2⟩
+  | scope, .use ps, h1, h2 => by simp only [HoldsItem] at h1 h2 ⊢; exact ⟨h1, h2⟩
+end
+
+/-- after a successful `add` every type, function and constant of the tree is
+    declared — in the scope its chain of modules leads to — with its own
+    signature and identity -/
+theorem add_post (lex : Name → Lex) {st st' : St} (hw : WF st) (items : Items)
+    (h : add Cfg.fixed lex st items = .ok st') : Holds QDecl st' [] items := by
+  unfold add at h
+  have h1 := declModules_good none items st hw
+  cases hr1 : declModules none items st with
+  | err e => simp [hr1] at h
+  | panic s => simp [hr1] at h
+  | ok st1 =>
+    rw [hr1] at h1
+    obtain ⟨e1, w1, m1⟩ := h1
+    simp only [hr1] at h
+    have h2 := walk_good lex .types QTrue (QPass .types) mono_QTrue (mono_QPass _) (leaf_types_post lex) items [] st1 w1 m1
+    cases hr2 : walk Cfg.fixed lex .types [] items st1 with
+    | err e => simp [hr2] at h
+    | panic s => simp [hr2] at h
+    | ok st2 =>
+      rw [hr2] at h2
+      obtain ⟨e2, w2, m2⟩ := h2
+      simp only [hr2] at h
+      have m2' : Holds QTrue st2 [] items := Holds.mono mono_QTrue e2 _ _ m1
+      have h3 := walk_good lex .functions QTrue (fun st s i => QFlat st s i ∧ QPass .functions st s i)
+        mono_QTrue (fun a b c d e f => ⟨mono_QFlat a b c d e f.1, mono_QPass _ a b c d e f.2⟩)
+        (leaf_functions_post lex) items [] st2 w2 m2'
+      cases hr3 : walk Cfg.fixed lex .functions [] items st2 with
+      | err e => simp [hr3] at h
+      | panic s => simp [hr3] at h
+      | ok st3 =>
+        rw [hr3] at h3
+        obtain ⟨e3, w3, m3⟩ := h3
+        simp only [hr3] at h
+        have h4 := walk_good lex .constants (fun st s i => QFlat st s i ∧ QPass .functions st s i)
+          (QPass .constants)
+          (fun a b c d e f => ⟨mono_QFlat a b c d e f.1, mono_QPass _ a b c d e f.2⟩) (mono_QPass _)
+          (leaf_constants_post lex) items [] st3 w3 m3
+        cases hr4 : walk Cfg.fixed lex .constants [] items st3 with
+        | err e => simp [hr4] at h
+        | panic s => simp [hr4] at h
+        | ok st4 =>
+          rw [hr4] at h4
+          obtain ⟨e4, w4, m4⟩ := h4
+          simp only [hr4] at h
+          have h5 := declImports_good [] items st4 w4
+          rw [h] at h5
+          have e5 := h5.1
+          have a2 := Holds.mono (mono_QPass .types) (e3.trans (e4.trans e5)) _ _ m2
+          have a3 := Holds.mono (mono_QPass .functions) (e4.trans e5) _ _
+            (Holds.imp (fun _ _ hq => hq.2) _ _ m3)
+          have a4 := Holds.mono (mono_QPass .constants) e5 _ _ m4
+          have all := Holds.and _ _ a2 (Holds.and _ _ a3 a4)
+          refine Holds.imp (fun scope i hq => ?_) _ _ all
+          cases i with
+          | type n id => exact hq.1 rfl
+          | function n ps r tag => exact hq.2.1 rfl
+          | constant n ty tag => exact hq.2.2 rfl
+          | module n ch => trivial
+          | impl ty ch => trivial
+          | use ps => trivial
+
+/-! ## from the table to what a script sees -/
+
+/-- the scope a chain of module (or type) names leads to -/
+def scopeAt (st : St) : ScopeId → List Name → Option ScopeId
+  | s, [] => some s
+  | s, n :: rest =>
+    match st.getScopeOf s n with
+    | some s' => scopeAt st s' rest
+    | none => none
+
+/-- item `i` sits in the tree under the module path `p` -/
+inductive ItemAt : Items → List Name → Item → Prop
+  | here (i : Item) (is : Items) : ItemAt (.cons i is) [] i
+  | there {is : Items} {p : List Name} {i : Item} (j : Item) : ItemAt is p i → ItemAt (.cons j is) p i
+  | inside {ch : Items} {p : List Name} {i : Item} (n : Name) (is : Items) :
+      ItemAt ch p i → ItemAt (.cons (.module n ch) is) (n :: p) i
+
+theorem holds_itemAt {Q : St → ScopeId → Item → Prop} {st : St} :
+    ∀ {items : Items} {p : List Name} {i : Item}, ItemAt items p i →
+      ∀ scope, Holds Q st scope items → ∃ s, scopeAt st scope p = some s ∧ HoldsItem Q st s i := by
+  intro items p i h
+  induction h with
+  | here i is => intro scope hh; simp only [Holds] at hh; exact ⟨scope, rfl, hh.1⟩
+  | there j _ ih => intro scope hh; simp only [Holds] at hh; exact ih scope hh.2
+  | inside n is _ ih =>
+    intro scope hh
+    simp only [Holds, HoldsItem] at hh
+    obtain ⟨⟨s, hs, hc⟩, _⟩ := hh
+    obtain ⟨s', hs', hq⟩ := ih s hc
+    exact ⟨s', by simp [scopeAt, hs, hs'], hq⟩
+
+theorem resolveRest_scopeAt (st : St) : ∀ (p : List Name) (d : Decl) (s s' : ScopeId) (n : Name) (d' : Decl),
+    d.scope = some s → scopeAt st s p = some s' → st.decls ⟨s', n⟩ = some d' →
+    resolveRest st d (p ++ [n]) = some d'
+  | [], d, s, s', n, d', hd, hs, hn => by
+    simp only [scopeAt] at hs; cases hs
+    simp [resolveRest, hd, hn]
+  | m :: p, d, s, s', n, d', hd, hs, hn => by
+    simp only [scopeAt] at hs
+    cases hg : st.getScopeOf s m with
+    | none => simp [hg] at hs
+    | some s1 =>
+      simp only [hg] at hs
+      unfold St.getScopeOf at hg
+      cases hm : st.decls ⟨s, m⟩ with
+      | none => simp [hm] at hg
+      | some dm =>
+        simp only [hm] at hg
+        simp only [List.cons_append, resolveRest, hd, hm]
+        exact resolveRest_scopeAt st p dm s1 s' n d' hg hs hn
+
+theorem resolvePath_scopeAt (st : St) (p : List Name) (s : ScopeId) (n : Name) (d : Decl)
+    (hs : scopeAt st [] p = some s) (hn : st.decls ⟨s, n⟩ = some d) :
+    resolvePath st (p ++ [n]) = some d := by
+  cases p with
+  | nil =>
+    simp only [scopeAt] at hs; cases hs
+    simp [resolvePath, resolveFirst, hn, resolveRest]
+  | cons m p =>
+    simp only [scopeAt] at hs
+    cases hg : st.getScopeOf [] m with
+    | none => simp [hg] at hs
+    | some s1 =>
+      simp only [hg] at hs
+      unfold St.getScopeOf at hg
+      cases hm : st.decls ⟨[], m⟩ with
+      | none => simp [hm] at hg
+      | some dm =>
+        simp only [hm] at hg
+        simp only [List.cons_append, resolvePath, resolveFirst, hm]
+        exact resolveRest_scopeAt st p dm s1 s n d hg hs hn
+
 end RotoV.Reg
